@@ -11,7 +11,7 @@ Open Scope Z_scope.
 Definition uses_declared (r : recipe) : bool := forallb (covered r) (r_uses r).
 
 (* every recipe outside the known findings reads only what its hash covers *)
-Time Lemma registry_complete_partial :
+Lemma registry_complete_partial :
   forall r, In r registry -> known_incomplete r = false ->
             uses_declared r = true.
 Proof.
@@ -22,7 +22,7 @@ Proof.
 Qed.
 
 (* ... and the full statement is false of the table as it is today *)
-Time Lemma registry_complete_refuted :
+Lemma registry_complete_refuted :
   exists r, In r registry /\ uses_declared r = false.
 Proof.
   destruct (find (fun r => negb (uses_declared r)) registry) as [r|] eqn:E.
@@ -32,7 +32,7 @@ Proof.
 Qed.
 
 (* recipes whose hashes can coincide compute the same thing *)
-Time Lemma registry_collide_ok : collide_ok registry = true.
+Lemma registry_collide_ok : collide_ok registry = true.
 Proof. vm_compute. reflexivity. Qed.
 
 (* ---- emodulus: documented precedence C > B > A decides the recipe ---- *)
@@ -48,14 +48,14 @@ Definition combo_eqb (x y : combo) : bool :=
   let '(a', b', c', d', e', f') := y in
   eqb a a' && eqb b b' && eqb c c' && eqb d d' && eqb e e' && eqb f f'.
 
-Time Lemma combo_eqb_eq : forall x y, combo_eqb x y = true -> x = y.
+Lemma combo_eqb_eq : forall x y, combo_eqb x y = true -> x = y.
 Proof.
   intros [[[[[a b] c] d] e] f] [[[[[a' b'] c'] d'] e'] f'].
   destruct a, a', b, b', c, c', d, d', e, e', f, f';
     simpl; intros H; try discriminate H; reflexivity.
 Qed.
 
-Time Lemma bools6_all : forall c : combo, In c bools6.
+Lemma bools6_all : forall c : combo, In c bools6.
 Proof.
   intros c.
   assert (H : existsb (combo_eqb c) bools6 = true).
@@ -65,7 +65,7 @@ Proof.
   apply combo_eqb_eq in Heq. now subst.
 Qed.
 
-Time Lemma emodulus_precedence :
+Lemma emodulus_precedence :
   forall (lut med tmp visc vm ht : bool) (medv : Z),
     medv = 1 \/ medv = 4 ->
     sel_scenario registry (emod_base lut med tmp visc vm ht medv)
@@ -90,7 +90,7 @@ Definition taken (c : combo) (medv : Z) : Z :=
 Definition taken_guard (c : combo) : bool :=
   let '(lut, med, tmp, visc, vm, ht) := c in negb (visc && med).
 
-Time Lemma emodulus_inputs_partial :
+Lemma emodulus_inputs_partial :
   forall c : combo, taken_guard c = true ->
     let '(lut, med, tmp, visc, vm, ht) := c in
     spec_scenario lut med tmp visc ht <> 0 ->
@@ -112,7 +112,7 @@ Qed.
 
 (* finding C06-emodulus-available-unreadable: case-A ingredients plus a
    viscosity: listed as available, reading raises ValueError *)
-Time Lemma available_iff_readable_refuted :
+Lemma available_iff_readable_refuted :
   exists b : base,
     contains AF registry (fresh b) f_emodulus = true
     /\ snd (read RF registry (fresh b) f_emodulus) = Err e_value.
@@ -122,7 +122,7 @@ Proof.
 Qed.
 
 (* finding C06-cached-stays-listed: compute time, delete the frame rate *)
-Time Lemma contains_fresh_refuted :
+Lemma contains_fresh_refuted :
   exists (b : base) (ops : list op) (f : Z),
     let st := run_state registry (fresh b) ops in
     contains AF registry st f = true
@@ -138,7 +138,7 @@ Qed.
    crosstalk / -emodulus-stale-viscosity: a read that returns a value a fresh
    dataset would not compute.  Witness: 2-channel crosstalk correction,
    then "crosstalk fl13" changes. *)
-Time Lemma read_fresh_refuted :
+Lemma read_fresh_refuted :
   exists (b : base) (ops : list op) (f : Z),
     let st := run_state registry (fresh b) ops in
     exists v v0, snd (read RF registry st f) = Ok v
